@@ -248,11 +248,12 @@ def cloneSlots (names : List String) (c : Cfg) (acc : Cfg) : List Slot → Excep
 
 /-- `Config.clone(into=…)`: every slot named in `names` is copied (dict levels through
     `merge_dicts` onto the fresh object's empty slot); `intoDefaults` are the global defaults of the
-    class cloned into, merged ON TOP of the copied defaults level (what `_clone_init_kwargs` does). -/
+    class cloned into: the copied defaults level is merged ON TOP of them, so the target class only
+    contributes keys the original does not have (what `_clone_init_kwargs` does since the repair). -/
 def Cfg.cloneWith (names : List String) (c : Cfg) (intoDefaults : KVs) : Except CErr Cfg :=
   match cloneSlots names c {} Slot.all with
   | .error e => .error e
-  | .ok n => match mergeKVs n.defaults intoDefaults with
+  | .ok n => match mergeKVs intoDefaults n.defaults with
     | .error e => .error e
     | .ok d =>
       let n' := { n with defaults := d }
